@@ -167,6 +167,10 @@ func (obj *Vector) Adjust(
 		ErrorPanic(NewScope(), 0,
 			"Expected %d new dimensions for array %s, but received %d.", len(obj.dims), obj, len(dims))
 	}
+	if dims[0] < fillPtr {
+		ErrorPanic(NewScope(), 0,
+			"The fill-pointer %d is beyond the new size %d of %s.", fillPtr, dims[0], obj)
+	}
 	if !obj.adjustable {
 		if initContent == nil {
 			content := make(List, dims[0])
